@@ -45,6 +45,11 @@ int rf_wavheader_decode(const uint8_t *p, unsigned int sz, rf_wavheader_t *wh)
 	wh->byte_rate = rf_unpack_u32le(&pack);
 	wh->block_align = rf_unpack_u16le(&pack);
 	wh->bits_per_sample = rf_unpack_u16le(&pack);
+	/* the header length is reported as an int; a format chunk too large
+	 * for that cannot be described (and cannot be a valid header)
+	 */
+	if (wh->fmt_chunk_size > 0x7fffff00)
+		return -EINVAL;
 	if (wh->fmt_chunk_size >= 18) {
 		wh->cb_size = rf_unpack_u16le(&pack);
 
